@@ -3,6 +3,8 @@ package absint
 import (
 	"fmt"
 	"go/types"
+	"os"
+	"runtime/debug"
 	"sort"
 	"strings"
 	"time"
@@ -322,6 +324,9 @@ func (in *Interp) ite(c Node, a, b Value) Value {
 					bk.E = append(bk.E, &Cell{in.ite(c, x.At(i).V, y.At(i).V)})
 				}
 				return &Slice{Back: bk, Lo: 0, Hi: x.Len(), Cap: x.Len(), Elem: x.Elem}
+			}
+			if os.Getenv("LW_SPLITDEBUG") == "2" {
+				fmt.Fprintf(os.Stderr, "SPLIT at\n%s\n", debug.Stack())
 			}
 			panic(SplitRequest{Cond: c, Why: fmt.Sprintf("slice length depends on a symbolic condition (%d vs %d)", x.Len(), y.Len())})
 		case NilVal:
